@@ -154,6 +154,9 @@ def structural_faults(seed):
                 yield ["variant", oid, path, vname]
             if ckind == "dict":
                 yield ["remove", oid, path]
+            if ty in ("array", "dict"):
+                # a direct container replaced by a reference to a container that contains itself
+                yield ["ref", oid, path, "selfarray" if ty == "array" else "selfdict"]
             if ty == "ref":
                 yield ["ref", oid, path, "self"]
                 yield ["ref", oid, path, "missing"]
